@@ -579,6 +579,7 @@ def run(ctx):
     ctx.floor('mean-step computations', nfp, 1)
     # ---- R-TZDROP
     n = check_tzdrop(ctx, fm, 'PseudoNetCDFFile.date2num')
+    n += check_tzdrop(ctx, fm, 'PseudoNetCDFFile.getTimes')     # the decoder itself: the standard-calendar branch keeps the offset of the reference date
     ctx.floor('tz drop sites', n, 1)
     ctx.assumptions += ['IOAPI flags: column 0 = YYYYJJJ, column 1 = HHMMSS; SDATE/EDATE are dates, STIME/ETIME/TSTEP are times',
                         'calendar.isleap on literal reference years (constant evaluation)']
